@@ -12,7 +12,7 @@ register("C04",
                    "GtModel.C04.bounds_sound", "GtModel.C04.observed_step", "GtModel.C04.converges",
                    "GtModel.C04.editDistance_fringe_lb_monotone", "GtModel.C04.editDistance_fringe_lb_sound",
                    "GtModel.C04.editDistance_final_le_total"],
-         streams=["trace", "bounded"],
+         streams=["trace", "bounded", "scriptxml", "scriptx"],
          assumptions=["make_distinct step counts and assignment-solver answers are oracles recorded from the run; the "
                       "theorems hold for EVERY make_distinct oracle and every ADMISSIBLE solver answer (AssignOK: in "
                       "range, ordered by from index, injective, of size min(nf, nt))",
